@@ -119,6 +119,8 @@ def decEntries (kids : List (SN τ)) (key : Tok) : List J → Option (List DN)
     let ks ← decKids kids kvs
     let kv ← (ks.find? fun (d : DN) => d.name = key).bind fun d => d.vals.head?
     let rest ← decEntries kids key r
+    -- (after the repair) two entries of one key value are refused
+    if rest.any (fun e => e.name = kv) then none else
     pure (DN.mk kv ks [] :: rest)
   | _ :: _ => none
 end
@@ -155,6 +157,11 @@ def gather (n : Tok) : List X → List X
   | [] => []
   | .el m t k :: r => if m = n then .el m t k :: gather n r else gather n r
 
+/-- two entries of one name (= key value) -/
+def dupEntry : List DN → Bool
+  | [] => false
+  | d :: r => r.any (fun e => e.name = d.name) || dupEntry r
+
 def elName : X → Tok | .el n _ _ => n
 def elText : X → Bytes | .el _ t _ => t
 def elKids : X → List X | .el _ _ k => k
@@ -176,7 +183,9 @@ def xdecKids (kids : List (SN τ)) : Nat → List X → Option (List DN)
         (group.mapM fun x => do
           let ks ← xdecKids ck fuel (elKids x)
           let kv ← (ks.find? fun (d : DN) => d.name = keys.headD []).bind fun d => d.vals.head?
-          pure (DN.mk kv ks [])).map fun es => DN.mk n es []
+          pure (DN.mk kv ks [])).bind fun es =>
+            -- (after the repair) two entries of one key value are refused
+            if dupEntry es then none else some (DN.mk n es [])
       | some (.leaf ..) =>
         (match group with
          | [x] => some (DN.mk n [] [elText x])
